@@ -63,6 +63,9 @@ class XmlRef(Rec):
         self.mode = mode
         self.strict = mode == "strict"
         self.declared = declared
+        # known-finding classes: each name switches one constraint of the reference off, so that a
+        # query can be decided "apart from" a recorded defect (never used for the strict language)
+        self.relax = set()
 
     # --- lexical ----------------------------------------------------------------------------
 
@@ -84,6 +87,8 @@ class XmlRef(Rec):
             return r
         if kind == "name":
             r = And(is_name_start(self.c(i)), *[is_name_char(self.c(i + k)) for k in range(1, m)])
+        elif kind == "rname":   # relaxed: any non-empty run of name characters
+            r = And(*[is_name_char(self.c(i + k)) for k in range(m)])
         elif kind == "nc":
             r = And(is_ncname_start(self.c(i)), *[is_ncname_char(self.c(i + k)) for k in range(1, m)])
         else:
@@ -106,7 +111,7 @@ class XmlRef(Rec):
             c = self.name_exact(i, m, kind)
             if c is False:
                 # validity as a Name is monotone in the prefix: once false, false for every longer m
-                if self.name_exact(i, m, "name") is False:
+                if self.name_exact(i, m, "rname") is False:
                     break
                 continue
             nxt = True if i + m == self.L else Not(is_name_char(self.c(i + m)))
@@ -126,7 +131,9 @@ class XmlRef(Rec):
         return "q" if self.strict else "name"
 
     def kind_plain(self):
-        return "nc" if self.strict else "name"
+        if self.strict:
+            return "nc"
+        return "rname" if "name-first-char" in self.relax else "name"
 
     @nt
     def Eq(self, i):
@@ -252,7 +259,10 @@ class XmlRef(Rec):
                     for m, cm in self.names(k + 1, self.kind_plain()):
                         o.add(k + m + 2, And(a, cm, self.at(";", k + 1 + m)))
                 return o
-            piece = lambda j, body=body: self.alt(j, lambda k: self.one(body, k), eref, self.CharRef)
+            if "pe-in-entity-value" in self.relax:
+                piece = lambda j, body=body: self.alt(j, lambda k: self.one(body, k), eref, self.CharRef, self.PEReference)
+            else:
+                piece = lambda j, body=body: self.alt(j, lambda k: self.one(body, k), eref, self.CharRef)
             for j, cj in self.star(i + 1, piece).items():
                 out.add(j + 1, And(qc, cj, self.at(q, j)))
         return out
@@ -379,7 +389,7 @@ class XmlRef(Rec):
             em.add(q + 2, And(cq, self.at("/>", q)))
         for q, cq in self.S(p).items():
             for m, cm in self.names(q, self.kind_elem()):
-                distinct = And(*[self.differs(q, m, a, n) for a, n in seen])
+                distinct = True if "dup-attr" in self.relax else And(*[self.differs(q, m, a, n) for a, n in seen])
                 base = And(cq, cm, distinct)
                 if base is False:
                     continue
@@ -593,9 +603,10 @@ class XmlRef(Rec):
         return total
 
 
-def accepts(s, mode="lenient", declared=None):
+def accepts(s, mode="lenient", declared=None, relax=()):
     """concrete evaluation of the reference"""
     r = XmlRef(sym.Input.concrete(s), mode, declared)
+    r.relax = set(relax)
     v = r.document()
     assert isinstance(v, bool), v
     return v
